@@ -63,6 +63,17 @@ void behaves_like_fresh(const std::string &key, const Spline<Real, o> &s, const 
     stats().obligations++;
     if (s.isZero() == f.isZero()) stats().discharged++; else E.fail(key + "/iszero-like-fresh", "structure", "isZero() depends on history");
   }
+  // derived quantities (no new forks): forms, operator application, arithmetic with a partner on the object's grid
+  if (hist == 1) {
+    size_t n = s.getSupport().getGrid().size();
+    auto q = mkspline<1>(s.getSupport().getGrid(), 0, n, "q");
+    E.prove(key + "/scalar-product-like-fresh", sym::eq(ScalarProduct{}(s, q), ScalarProduct{}(f, q)));
+    E.prove(key + "/bilinear-form-like-fresh", sym::eq(BilinearForm{X<1>{}, Dx<1>{}}(q, s), BilinearForm{X<1>{}, Dx<1>{}}(q, f)));
+    stats().obligations += 3;
+    if ((X<1>{} * s) == (X<1>{} * f)) stats().discharged++; else E.fail(key + "/operator-application-like-fresh", "structure", "X<1>*s depends on history");
+    if ((s + q) == (f + q) && (q * s) == (q * f)) stats().discharged++; else E.fail(key + "/arithmetic-like-fresh", "structure", "s+q or q*s depends on history");
+    if (s.checkOverlap(q) == f.checkOverlap(q)) stats().discharged++; else E.fail(key + "/overlap-like-fresh", "structure", "checkOverlap depends on history");
+  }
 }
 
 template <size_t o>
